@@ -22,4 +22,10 @@ TEXT["C19"] = dict(
     level_note=NOTE_COMMON + "Vec::reserve arithmetic is modelled as a no-op on contents (the driver checks the prefix).",
     technique="Lean 4 theorems over the critical-section model + sequential differential",
 )
+TEXT["C17"] = dict(
+    level_text="Proof: Lean theorems over the MutexM model of mutex.rs + backoff.rs::spin_cond (its real loop structure, both parallelism branches), for any number of threads and any schedule: mutual exclusion (c17_mutex), race-free visibility given an acquiring CAS and a releasing store (c17_visibility, with a proved counterexample when the store is relaxed), try_lock never waits, lock() returns only after a successful CAS and spin_cond has no other exit, and the next attempt is at most 2 own steps away and succeeds if the lock is free. c17_this_tree instantiates them with the orderings and constants the extractor reads from the source on every run (tie theorems mutex_shape / mutex_ords_ok / lock_structure / spin_consts_ok). Runs of the real crate under the controlled scheduler are monitored for critical-section overlap and for the ordering arguments actually passed.",
+    design_ref="DESIGN.md §5 C17, §3.5",
+    level_note=NOTE_COMMON + "Memory model = SC lock word + permission transfer on release/acquire. Starvation-freedom not claimed.",
+    technique="Lean 4 invariants over a lock/spin_cond transition system + extracted orderings + trace monitoring under a controlled scheduler",
+)
 NOT_YET = {}
